@@ -12,5 +12,6 @@ CONSTANTS
   Drivers = {"poll"}
   Impls = {"blocking"}
   Families = {"echo"}
+  BlockingChildPipes = TRUE
 SPECIFICATION Spec
 INVARIANTS TypeOK NoDeadlockStrict
